@@ -220,11 +220,20 @@ Proof.
         -- destruct Hin as [<-|Hin]; [left; reflexivity|right; apply IH; exact Hin].
 Qed.
 
+Lemma nodup_snoc {A} (l : list A) x : NoDup l -> ~ In x l -> NoDup (l ++ [x]).
+Proof.
+  induction l as [|a l IH]; intros ND Hn; cbn [app].
+  - constructor; [intros []|constructor].
+  - inversion ND as [|? ? Ha ND']; subst. constructor.
+    + intros Hin. apply in_app_or in Hin as [Hin|[<-|[]]]; [auto|]. apply Hn. left. reflexivity.
+    + apply IH; [exact ND'|]. intros Hin. apply Hn. right. exact Hin.
+Qed.
+
 Lemma al_add_new_keys_nodup k v l : NoDup (keys l) -> NoDup (keys (al_add_new k v l)).
 Proof.
   intros ND. unfold al_add_new. rewrite al_has_get. destruct (al_get k l) eqn:E; [exact ND|].
   unfold keys. rewrite map_app. cbn [map fst].
-  apply NoDup_app_singleton; [exact ND|]. apply al_get_none_notin. exact E.
+  apply nodup_snoc; [exact ND|]. apply al_get_none_notin. exact E.
 Qed.
 
 Lemma al_del_in k k' v l : In (k', v) (al_del k l) <-> In (k', v) l /\ k' <> k.
